@@ -135,7 +135,14 @@ def evaluate(ctx, cases):
                     reqs.append('ampcons.spec T %s %s %s' % (dr, r, d)); reqs.append('ampcons.spec F %s %s %s' % (dr, r, d))
                     items.append(('ac_nosamp_' + dr, _wrap(lambda: compute_amp_consistency(dfn, direction=dr)), 'known_ac'))
         plan.append(dict(j0=j0, items=items, df=df, n=len(df)))
+        if c['kind'] == 'signal' and not c.get('lab', 0) and len(df):
+            # the BURST-FEATURE projection of the composed Lean model (pipelineCycles) against the table of compute_features
+            rq = implutil.pipeline_request(x, c['fs'], c['f_range'], c['center'], None, None, None, {})
+            if rq is not None: plan[-1]['pipe'] = rq
     ans = proto.run_driver(reqs)
+    pidx = [i for i, p in enumerate(plan) if 'pipe' in p]
+    for i, a in zip(pidx, proto.run_driver([plan[i]['pipe'] for i in pidx])):
+        plan[i]['pipe_ans'] = a
     out = []
     for c, p in zip(cases, plan):
         key = hash(repr({k: v for k, v in c.items() if k != 'family'}))
@@ -179,6 +186,11 @@ def evaluate(ctx, cases):
                 info[name] = dict(impl=impl, expected=a)
                 if role in ('corr', 'both'): corr_ok = False
                 if role in ('judge', 'both'): judge_ok = False
+        if 'pipe_ans' in p and corr_ok:
+            pj = implutil.pipeline_projections(p['pipe_ans'], p['df'], c['center'], {})
+            if pj['feats'] is not None and not pj['feats'].startswith('tie:'):
+                corr_ok = False; info['pipeline'] = pj['feats']
+            ctx.hist('pipeline feats', 'agrees' if pj['feats'] is None else ('float tie' if pj['feats'].startswith('tie:') else 'differs'))
         ctx.hist('kind', c['kind'])
         fkey = None
         if judge_ok and known:      # the ONLY thing wrong is what the known finding predicts (exactly the trough-centred pairing)
